@@ -857,6 +857,13 @@ Next:
           if (ASMJIT_UNLIKELY(!common_info.has_avx512_er())) {
             return make_error(Error::kInvalidEROrSAE);
           }
+
+          // vcvtsi2sd / vcvtusi2sd define {er} only for a 64-bit integer source - the conversion of a 32-bit integer
+          // to double precision is exact and EVEX.b is reserved in the EVEX.W0 forms.
+          if (ASMJIT_UNLIKELY((inst_id == Inst::kIdVcvtsi2sd || inst_id == Inst::kIdVcvtusi2sd) &&
+                              op_count == 3 && operands[2].is_gp32())) {
+            return make_error(Error::kInvalidEROrSAE);
+          }
         }
         else {
           if (ASMJIT_UNLIKELY(!common_info.has_avx512_sae())) {
